@@ -234,6 +234,18 @@ impl<'a> Evaluator<'a> {
                             }),
                         }
                     }
+                    (Some(SymbolData::Number(_)), Some(SymbolData::String(_)))
+                    | (Some(SymbolData::String(_)), Some(SymbolData::Number(_))) => {
+                        // Both sides are known, but they cannot be combined: without this error the whole
+                        // statement would silently assemble to nothing
+                        Err(EvaluationError {
+                            span: bin.op.span,
+                            message: format!(
+                                "cannot apply operation '{}' on a number and a string",
+                                bin.op.data
+                            ),
+                        })
+                    }
                     _ => Ok(None),
                 }
             }
